@@ -101,6 +101,13 @@ def params(tier):
         for name in ("A", "B"):
             ps.append({"sources": SRC3, "cancel": {"by": "name", "how": how, "name": name},
                        "bound": 1 if (how == "number" or not q) else 0, "time_horizon": 0.5 if q else 1.0})
+    # a finite source with the same signal has already finished when the long-lived one is cancelled
+    fin = [{"sig": "A", "period": 0.5, "times": 0, "deferred": True, "kind": "fifo"},
+           {"sig": "A", "period": 0.25, "times": 1, "deferred": True, "kind": "fifo"},
+           {"sig": "B", "period": 0.5, "times": 0, "deferred": True, "kind": "lifo"}]
+    ps.append({"sources": fin, "cancel": {"by": "id", "how": "same", "target": 0, "at": 0.6}, "bound": 0 if q else 1, "time_horizon": 1.5})
+    ps.append({"sources": fin, "cancel": {"by": "name", "how": "number", "name": "A", "at": 0.6}, "bound": 0 if q else 1, "time_horizon": 1.5})
+    ps.append({"sources": list(reversed(fin)), "cancel": {"by": "id", "how": "copy", "target": 2, "at": 0.6}, "bound": 0, "time_horizon": 1.5})
     # cancelling something that is not there cancels nothing
     for how in ("unknown", "none"):
         ps.append({"sources": SRC3, "cancel": {"by": "id", "how": how, "target": 0}, "bound": 0 if q else 1, "time_horizon": 0.5 if q else 1.0})
